@@ -28,16 +28,17 @@ pub open spec fn response_is(r: Response<()>, p: Parsed, hs: Seq<Hdr>) -> bool {
     &&& r.spec_status() == StatusCode(p.code->Some_0)
     &&& hdr_multiset_order(r.spec_headers().entries(), hs)
 }
-/// C05/C20: what the complete response parser returns, as a function of httparse's outcome
+/// C05/C20: what the complete response parser returns, as a function of httparse's outcome.  WHICH error a malformed head
+/// yields is not part of any property (only "an error", and that it is not the too-many-headers one): the variants are not pinned.
 pub open spec fn spec_try_parse_response(o: Outcome, r: Result<Option<(usize, Response<()>)>, Error>) -> bool {
     match o {
         Outcome::Err(e) => if e == httparse::Error::TooManyHeaders { r == Err::<Option<(usize, Response<()>)>, Error>(Error::HttpParseTooManyHeaders) } else { r is Err && r->Err_0 is HttpParseFail },
         Outcome::Partial(_) => r == Ok::<Option<(usize, Response<()>)>, Error>(None),
         Outcome::Complete(n, p) =>
-            if p.version is None { r == Err::<Option<(usize, Response<()>)>, Error>(Error::MissingResponseVersion) }
-            else if p.version->Some_0 > 1 { r == Err::<Option<(usize, Response<()>)>, Error>(Error::UnsupportedVersion) }
-            else if p.code is None { r == Err::<Option<(usize, Response<()>)>, Error>(Error::ResponseMissingStatus) }
-            else if !(100 <= p.code->Some_0 <= 999) { r == Err::<Option<(usize, Response<()>)>, Error>(Error::ResponseInvalidStatus) }
+            if p.version is None { (r is Err && !(r->Err_0 is HttpParseTooManyHeaders)) }
+            else if p.version->Some_0 > 1 { (r is Err && !(r->Err_0 is HttpParseTooManyHeaders)) }
+            else if p.code is None { (r is Err && !(r->Err_0 is HttpParseTooManyHeaders)) }
+            else if !(100 <= p.code->Some_0 <= 999) { (r is Err && !(r->Err_0 is HttpParseTooManyHeaders)) }
             else { match build_fields(p.fields, p.fields.len() as int) {
                 Ok(hs) => r is Ok && r->Ok_0 is Some && r->Ok_0->Some_0.0 == n && response_is(r->Ok_0->Some_0.1, p, hs),
                 Err(_) => r is Err && r->Err_0 is BadHeader,
@@ -57,7 +58,7 @@ pub open spec fn spec_try_parse_partial(o: Outcome, r: Result<Option<Response<()
         Outcome::Err(e) => if e == httparse::Error::TooManyHeaders { r == Err::<Option<Response<()>>, Error>(Error::HttpParseTooManyHeaders) } else { r is Err && r->Err_0 is HttpParseFail },
         Outcome::Partial(p) | Outcome::Complete(_, p) =>
             if p.version is None || p.version->Some_0 > 1 || p.code is None { r == Ok::<Option<Response<()>>, Error>(None) }
-            else if !(100 <= p.code->Some_0 <= 999) { r == Err::<Option<Response<()>>, Error>(Error::ResponseInvalidStatus) }
+            else if !(100 <= p.code->Some_0 <= 999) { (r is Err && !(r->Err_0 is HttpParseTooManyHeaders)) }
             else { match build_fields(p.fields, nonempty_prefix(p.fields, p.fields.len() as int)) {
                 Ok(hs) => r is Ok && r->Ok_0 is Some && response_is(r->Ok_0->Some_0, p, hs),
                 Err(_) => r is Err && r->Err_0 is BadHeader,
@@ -134,11 +135,11 @@ pub open spec fn spec_try_parse_request(o: Outcome, r: Result<Option<(usize, Req
         Outcome::Err(e) => if e == httparse::Error::TooManyHeaders { r == Err::<Option<(usize, Request<()>)>, Error>(Error::HttpParseTooManyHeaders) } else { r is Err && r->Err_0 is HttpParseFail },
         Outcome::Partial(_) => r == Ok::<Option<(usize, Request<()>)>, Error>(None),
         Outcome::Complete(n, p) =>
-            if p.version is None { r == Err::<Option<(usize, Request<()>)>, Error>(Error::MissingResponseVersion) }
-            else if p.version->Some_0 > 1 { r == Err::<Option<(usize, Request<()>)>, Error>(Error::UnsupportedVersion) }
-            else if p.method is None { r == Err::<Option<(usize, Request<()>)>, Error>(Error::RequestMissingMethod) }
+            if p.version is None { (r is Err && !(r->Err_0 is HttpParseTooManyHeaders)) }
+            else if p.version->Some_0 > 1 { (r is Err && !(r->Err_0 is HttpParseTooManyHeaders)) }
+            else if p.method is None { (r is Err && !(r->Err_0 is HttpParseTooManyHeaders)) }
             else { match Method::spec_from_bytes(p.method->Some_0) {
-                None => r == Err::<Option<(usize, Request<()>)>, Error>(Error::RequestInvalidMethod),
+                None => (r is Err && !(r->Err_0 is HttpParseTooManyHeaders)),
                 Some(m) => match build_fields(p.fields, p.fields.len() as int) {
                     Ok(hs) => r is Ok && r->Ok_0 is Some && r->Ok_0->Some_0.0 == n && request_is(r->Ok_0->Some_0.1, p, m, hs),
                     Err(_) => r is Err && r->Err_0 is BadHeader,
